@@ -69,7 +69,7 @@ def addr(irt: int, scd_irt: int, dest: int, r1: int, r2: int, recip: int,
     ok = ok & ((not perfect) | acc)
     if acc & (irt == 0):
         ok = ok & (ar.came_from == "/")
-    return ok, acc | (not (dest_ok & aud_ok)), "accepted=%s exc=%r" % (acc, exc)
+    return ok, acc | (not need), "accepted=%s exc=%r" % (acc, exc)
 
 
 def dest_string(has_dest: bool, dest: str, irt: int, unsol: bool):
